@@ -525,6 +525,27 @@ def predicate_table(fn: ast.AST, atom_of, n_atoms: int):
     return truth_table(disj[0] if len(disj) == 1 else ast.BoolOp(op=ast.Or(), values=disj), atom_of, n_atoms)
 
 
+def universal_form(e: ast.expr):
+    """A quantified boolean `all(E for x in X if F)` / `not any(E for x in X if F)` (list or generator argument) in the one
+    form ∀x∈X: C — returns (target name, iterable text, C) with filters folded into C, or None."""
+    neg = False
+    while isinstance(e, ast.UnaryOp) and isinstance(e.op, ast.Not):
+        neg, e = not neg, e.operand
+    if not (isinstance(e, ast.Call) and isinstance(e.func, ast.Name) and e.func.id in ("all", "any") and len(e.args) == 1 and not e.keywords
+            and isinstance(e.args[0], (ast.GeneratorExp, ast.ListComp)) and len(e.args[0].generators) == 1):
+        return None
+    g = e.args[0].generators[0]
+    if not isinstance(g.target, ast.Name) or (e.func.id == "any") != neg:
+        return None  # `any(...)` / `not all(...)` are existential
+    filt = list(g.ifs)
+    body = e.args[0].elt
+    if e.func.id == "all":      # ∀ x: F → E
+        c = ast.BoolOp(op=ast.Or(), values=[ast.UnaryOp(op=ast.Not(), operand=x) for x in filt] + [body]) if filt else body
+    else:                       # ¬∃ x: F ∧ E
+        c = ast.UnaryOp(op=ast.Not(), operand=ast.BoolOp(op=ast.And(), values=filt + [body]) if filt else body)
+    return g.target.id, norm(g.iter), c
+
+
 def atom_mapper(table: Dict[str, int]):
     """``atom_of`` for truth_table: an atom is recognised by its text or by the text of its negation
     (`x is None` is atom `x is not None` with polarity False)."""
